@@ -4,7 +4,7 @@
 From Coq Require Import List ZArith Lia Bool Arith.
 Import ListNotations.
 Require Import C01.Sums C01.Batch C01.Tensor C01.OpExpr C01.Model C01.Covered.
-Require Import C01.ProofsBase C01.ProofsAlg C01.ProofsKron C01.ProofsStruct C01.ProofsSize.
+Require Import C01.ProofsBase C01.ProofsAlg C01.ProofsKron C01.ProofsStruct C01.ProofsMore C01.ProofsSize.
 Open Scope Z_scope.
 
 (* f acts as D and D is symmetric: f acts as the transpose too *)
@@ -35,17 +35,46 @@ Qed.
 Lemma acts_toeplitz col : acts (toeplitz_mm col) (dtoeplitz col).
 Proof. intros X [H1 H2]. apply toeplitz_circulant_correct. exact H1. Qed.
 
-(* the _diag vector of a diagonal-class child, as AddedDiag._matmul uses it *)
-Lemma acts_diagv d : wf d -> is_diag_cls d = true -> (match d with KronDiag _ => False | _ => True end) ->
-  acts (drowscale (diagv d)) (denote d).
+Lemma pw_fix_pwc ops :
+  (fix pw (l : list OpExpr) : bool :=
+     match l with [] => true | x :: r => forallb (fun y => bcompat (bsh (denote x)) (bsh (denote y))) r && pw r end) ops
+  = pwc (map bsh (map denote ops)).
 Proof.
-  unfold wf. intros HW HD HK. destruct d; try discriminate; simpl in *; bsplit.
-  - apply acts_diag. assumption.
-  - intros X [H1 H2]. simpl in *. eapply BTeq_trans; [|apply BTeq_sym; apply dmm_dconstdiag; exact H1].
-    unfold drowscale, dcscale. repeat split.
-  - intros X [H1 H2]. simpl in *. eapply BTeq_trans; [|apply BTeq_sym; apply dmm_eye_l; assumption].
-    unfold drowscale, dexpand, dones. repeat split; simpl. intros I i j _ _ _. unfold bget at 1. simpl. unfold bget. destruct (ent X (bproj (bsh X) I) i j); reflexivity.
-  - contradiction.
+  induction ops as [|x ops IH]; [reflexivity|]. simpl. rewrite IH. f_equal.
+  rewrite !forallb_map. reflexivity.
+Qed.
+
+(* Kronecker product of diagonal operators = diagonal of the Kronecker product of the diagonals (_kron_diag) *)
+Lemma krondiag_denote ops :
+  forallb wfb ops = true -> forallb is_plain_diag_cls ops = true ->
+  forallb (fun x => pos (nr (denote x)) && pos (nc (denote x))) ops = true -> pwc (map bsh (map denote ops)) = true ->
+  kronl (map denote ops) == ddiag (kron_diag_vec (map diag_of ops)).
+Proof.
+  intros HW HD HPos HP.
+  assert (E : map denote ops = map ddiag (map diag_of ops)).
+  { rewrite map_map. apply map_ext_in. intros x Hx. rewrite forallb_forall in HD. specialize (HD x Hx).
+    destruct x; try discriminate. reflexivity. }
+  rewrite E in *. apply kronl_ddiag.
+  - rewrite forallb_map. rewrite forallb_forall in *. intros x Hx. specialize (HPos x Hx). specialize (HD x Hx).
+    destruct x; try discriminate. simpl in *. apply andb_true_iff in HPos. apply HPos.
+  - rewrite map_map in HP. rewrite map_map. rewrite map_map in HP. exact HP.
+Qed.
+
+(* the _diag vector of a diagonal-class operator (DiagLinearOperator family) *)
+Lemma diagv_correct d : wf d -> is_diag_cls d = true -> denote d == ddiag (diagv d) /\ nc (diagv d) = 1%nat.
+Proof.
+  unfold wf. intros HW HD. destruct d; try discriminate; simpl in HW; bsplit.
+  - split; [apply BTeq_refl|assumption].
+  - split; [|reflexivity]. unfold dconstdiag, ddiag. repeat split.
+  - split; [|reflexivity]. unfold deye, ddiag, dones. repeat split.
+  - split; [|apply (kron_diag_vec_shape (map diag_of ops))]. simpl denote. rewrite denote_kron_fold.
+    rewrite pw_fix_pwc in *. apply krondiag_denote; assumption.
+Qed.
+
+Lemma acts_diagv d : wf d -> is_diag_cls d = true -> acts (drowscale (diagv d)) (denote d).
+Proof.
+  intros HW HD. destruct (diagv_correct d HW HD) as [H1 H2].
+  eapply acts_eq; [apply BTeq_sym; exact H1|apply acts_diag; exact H2].
 Qed.
 
 Lemma dsuml_two A B : nr B = nr A -> nc B = nc A -> bcompat (bsh A) (bsh B) = true -> dsuml [A; B] == dadd A B.
@@ -93,17 +122,6 @@ Proof.
   intros HP. destruct t; simpl; [apply kronl_dtr; exact HP|]. rewrite map_id. apply BTeq_refl.
 Qed.
 
-Lemma forallb_map {A B} (g : A -> B) (p : B -> bool) l : forallb p (map g l) = forallb (fun x => p (g x)) l.
-Proof. induction l; simpl; [reflexivity|]. rewrite IHl. reflexivity. Qed.
-
-Lemma pw_fix_pwc ops :
-  (fix pw (l : list OpExpr) : bool :=
-     match l with [] => true | x :: r => forallb (fun y => bcompat (bsh (denote x)) (bsh (denote y))) r && pw r end) ops
-  = pwc (map bsh (map denote ops)).
-Proof.
-  induction ops as [|x ops IH]; [reflexivity|]. simpl. rewrite IH. f_equal.
-  rewrite !forallb_map. reflexivity.
-Qed.
 
 Lemma mt_dims t A : (nr (mt t A) = if t then nc A else nr A) /\ (nc (mt t A) = if t then nr A else nc A).
 Proof. destruct t; split; reflexivity. Qed.
@@ -183,7 +201,52 @@ Proof.
   - apply (acts_two (mm true a) (mm true d) (denote a) (denote d) true); try (symmetry; assumption); try assumption; auto.
   - apply (acts_dadd (mm false a) (drowscale (diagv d)) (denote a) (denote d)); try (symmetry; assumption); try assumption.
     + apply (HA false).
-    + apply acts_diagv; [assumption|assumption|]. destruct d; try exact I. discriminate.
+    + apply acts_diagv; assumption.
+Qed.
+
+(* ---- concatenation ---------------------------------------------------------------------------------- *)
+
+Lemma acts_cat_rowsdir (tf : bool) x ops :
+  forallb wfb (x :: ops) = true ->
+  forallb (fun y => shape_eqb (bsh (denote y)) (bsh (denote x)) && Nat.eqb (nc (denote y)) (nc (denote x))) ops = true ->
+  (forall y, In y (x :: ops) -> forall t, acts (mm t y) (mt t (denote y))) ->
+  acts (mm tf (Cat (x :: ops) CatRows)) (mt tf (dcat (map denote (x :: ops)) CatRows)).
+Proof.
+  intros HW HS HA.
+  assert (HS' : forall y, In y (x :: ops) -> bsh (denote y) = bsh (denote x) /\ nc (denote y) = nc (denote x)).
+  { intros y [<-|Hy]; [auto|]. rewrite forallb_forall in HS. specialize (HS y Hy). bsplit. auto. }
+  destruct tf.
+  - (* transposed: the transposed object concatenates along columns *)
+    intros X HX. cbn [mm].
+    change (dsum_pieces (pieces (mm true) (fun y => sz_m (sz y)) X (x :: ops) 0) == dmm (mt true (dcat (map denote (x :: ops)) CatRows)) X).
+    revert X HX. eapply acts_eq; [|apply (acts_cat_cols (mm true) (fun y => dtr (denote y)) (fun y => sz_m (sz y)) x ops)].
+    + simpl mt. rewrite <- (map_map denote dtr). apply BTeq_sym. apply dtr_dcat_rows.
+    + intros y Hy. destruct (HS' y Hy) as [S1 S2]. split; [apply (HA y Hy true)|]. split; [exact S1|]. split; [exact S2|].
+      rewrite (sz_correct y (wfb_all_in _ y HW Hy)). reflexivity.
+  - intros X HX. cbn [mm]. revert X HX.
+    apply (acts_cat_rows (mm false) denote x ops). intros y Hy. destruct (HS' y Hy) as [S1 S2].
+    split; [apply (HA y Hy false)|]. split; assumption.
+Qed.
+
+Lemma acts_cat_colsdir (tf : bool) x ops :
+  forallb wfb (x :: ops) = true ->
+  forallb (fun y => shape_eqb (bsh (denote y)) (bsh (denote x)) && Nat.eqb (nr (denote y)) (nr (denote x))) ops = true ->
+  (forall y, In y (x :: ops) -> forall t, acts (mm t y) (mt t (denote y))) ->
+  acts (mm tf (Cat (x :: ops) CatCols)) (mt tf (dcat (map denote (x :: ops)) CatCols)).
+Proof.
+  intros HW HS HA.
+  assert (HS' : forall y, In y (x :: ops) -> bsh (denote y) = bsh (denote x) /\ nr (denote y) = nr (denote x)).
+  { intros y [<-|Hy]; [auto|]. rewrite forallb_forall in HS. specialize (HS y Hy). bsplit. auto. }
+  destruct tf.
+  - intros X HX. cbn [mm]. revert X HX.
+    eapply acts_eq; [|apply (acts_cat_rows (mm true) (fun y => dtr (denote y)) x ops)].
+    + simpl mt. rewrite <- (map_map denote dtr). apply BTeq_sym. apply dtr_dcat_cols.
+    + intros y Hy. destruct (HS' y Hy) as [S1 S2]. split; [apply (HA y Hy true)|]. split; [exact S1|exact S2].
+  - intros X HX. cbn [mm].
+    change (dsum_pieces (pieces (mm false) (fun y => sz_n (sz y)) X (x :: ops) 0) == dmm (mt false (dcat (map denote (x :: ops)) CatCols)) X).
+    revert X HX. apply (acts_cat_cols (mm false) denote (fun y => sz_n (sz y)) x ops).
+    intros y Hy. destruct (HS' y Hy) as [S1 S2]. split; [apply (HA y Hy false)|]. split; [exact S1|]. split; [exact S2|].
+    rewrite (sz_correct y (wfb_all_in _ y HW Hy)). reflexivity.
 Qed.
 
 (* ---- the induction -------------------------------------------------------------------------------- *)
@@ -214,6 +277,10 @@ Proof.
   - (* KronTriangular *) cbn [mm denote sz sz_b fst]. rewrite denote_kron_fold. rewrite pw_fix_pwc in *.
     apply acts_kron_ops; try assumption.
     intros x Hx. rewrite Forall_forall in H. apply (H x Hx); [eapply wfb_all_in; eauto|eapply covered_all_in; eauto].
+  - (* KronDiag *) cbn [mm denote]. rewrite denote_kron_fold. rewrite pw_fix_pwc in *.
+    assert (HK : kronl (map denote ops) == ddiag (kron_diag_vec (map diag_of ops))) by (apply krondiag_denote; assumption).
+    eapply acts_eq; [apply mt_eq; apply BTeq_sym; exact HK|].
+    apply acts_sym_mt; [apply dtr_ddiag|]. apply acts_diag_fr. apply (kron_diag_vec_shape (map diag_of ops)).
   - (* KronAddedDiag *) ihs. apply (acts_added_diag tf e1 e2); assumption.
   - (* SumKron *) ihs. cbn [mm denote].
     apply (acts_two (mm tf e1) (mm tf e2) (denote e1) (denote e2) tf); try (symmetry; assumption); try assumption; useih.
@@ -231,15 +298,22 @@ Proof.
   - (* ConstantMul *) ihs. cbn [mm denote].
     eapply acts_eq; [|apply (acts_dscale (mm tf e) (mt tf (denote e)) c); [useih|rewrite mt_shape; assumption]].
     destruct tf; simpl; [apply BTeq_sym; apply dtr_dscale|apply BTeq_refl].
-  - (* BlockDiag *) ihs. cbn [mm denote]. 
-    match goal with HD : is_diag_cls e = false |- _ => rewrite HD end.
+  - (* BlockDiag *) ihs. cbn [mm denote].
     destruct (bsh (denote e)) as [|k bs] eqn:HS; [discriminate|].
-    rewrite (blocks_of_sz e k bs) by assumption.
     unfold pos in *. repeat match goal with HH : (0 <? _)%nat = true |- _ => apply Nat.ltb_lt in HH end.
-    eapply acts_eq; [|apply (acts_blockdiag (mm tf e) (mt tf (denote e)) k bs); [rewrite mt_shape; exact HS|assumption| | |useih]].
-    + destruct tf; simpl; [apply BTeq_sym; apply dtr_dblockdiag|apply BTeq_refl].
-    + destruct (mt_dims tf (denote e)) as [E1 E2]. rewrite E1. destruct tf; congruence.
-    + destruct (mt_dims tf (denote e)) as [E1 E2]. rewrite E2. destruct tf; congruence.
+    destruct (is_diag_cls e) eqn:HD.
+    + (* metaclass: a DiagLinearOperator *)
+      destruct (diagv_correct e) as [HV HV1]; [assumption|assumption|].
+      destruct (BTeq_shape _ _ HV) as (v1 & v2 & v3). simpl in v1, v2, v3.
+      assert (HF : dblockdiag (denote e) == ddiag (flatten_diag (diagv e))).
+      { eapply BTeq_trans; [apply dblockdiag_eq; exact HV|]. apply (flatten_ddiag (diagv e) k bs); congruence. }
+      eapply acts_eq; [apply mt_eq; apply BTeq_sym; exact HF|].
+      apply acts_sym_mt; [apply dtr_ddiag|]. apply acts_diag_fr. unfold flatten_diag. rewrite <- v1, HS. reflexivity.
+    + rewrite (blocks_of_sz e k bs) by assumption.
+      eapply acts_eq; [|apply (acts_blockdiag (mm tf e) (mt tf (denote e)) k bs); [rewrite mt_shape; exact HS|assumption| | |useih]].
+      * destruct tf; simpl; [apply BTeq_sym; apply dtr_dblockdiag|apply BTeq_refl].
+      * destruct (mt_dims tf (denote e)) as [E1 E2]. rewrite E1. destruct tf; congruence.
+      * destruct (mt_dims tf (denote e)) as [E1 E2]. rewrite E2. destruct tf; congruence.
   - (* BlockInterleaved *) ihs. cbn [mm denote].
     destruct (bsh (denote e)) as [|k bs] eqn:HS; [discriminate|].
     rewrite (blocks_of_sz e k bs) by assumption.
@@ -252,6 +326,26 @@ Proof.
     unfold pos in *. repeat match goal with HH : (0 <? _)%nat = true |- _ => apply Nat.ltb_lt in HH end.
     eapply acts_eq; [|apply (acts_sumbatch (mm tf e) (mt tf (denote e)) k bs); [rewrite mt_shape; exact HS|assumption|useih]].
     destruct tf; simpl; [apply BTeq_sym; apply dtr_dsumbatch|apply BTeq_refl].
+  - (* Cat *) destruct ops as [|x ops]; [discriminate|]. destruct ops as [|x2 ops]; [discriminate|].
+    assert (HA : forall y, In y (x :: x2 :: ops) -> forall t, acts (mm t y) (mt t (denote y))).
+    { intros y Hy t'. rewrite Forall_forall in H. apply (H y Hy); [eapply wfb_all_in; eauto|].
+      destruct d; try discriminate; eapply covered_all_in; eauto. }
+    destruct d; [apply acts_cat_rowsdir; assumption|apply acts_cat_colsdir; assumption|discriminate].
+  - (* Interpolated *) ihs. cbn [mm denote]. rewrite (sz_correct e) by assumption. unfold shp, sz_m, sz_n. cbn [fst snd].
+    set (K := denote e) in *. set (Wl := dinterp li lv (nr K)). set (Wr := dinterp ri rv (nc K)).
+    assert (B1 : bsh Wr = bsh Wl) by (unfold Wl, Wr; simpl; assumption).
+    assert (B2 : bsub (bsh K) (bsh Wl) = true) by (unfold Wl; simpl; assumption).
+    destruct (BTeq_shape _ _ (fr_eq Wl)) as (l1 & l2 & l3). destruct (BTeq_shape _ _ (fr_eq Wr)) as (r1 & r2 & r3).
+    destruct tf; simpl mt.
+    + eapply acts_eq; [|apply (acts_interp (mm true e) (dtr K) (fr Wr) (fr Wl)); [useih|rewrite r3; reflexivity|rewrite l3; reflexivity|congruence|rewrite r1, B1; exact B2]].
+      eapply BTeq_trans; [apply (interp_meaning_eq Wr (fr Wr) (dtr K) Wl (fr Wl)); try apply fr_eq; try reflexivity; [congruence|rewrite B1; exact B2]|].
+      apply BTeq_sym. apply dtr_interp; try reflexivity; assumption.
+    + eapply acts_eq; [|apply (acts_interp (mm false e) K (fr Wl) (fr Wr)); [useih|rewrite l3; reflexivity|rewrite r3; reflexivity|congruence|rewrite l1; exact B2]].
+      apply interp_meaning_eq; try apply fr_eq; try reflexivity; assumption.
+  - (* Masked *) ihs. cbn [mm denote]. destruct tf; simpl mt.
+    + eapply acts_eq; [apply BTeq_sym; apply dtr_dmask|]. apply (acts_masked (mm true e) (dtr (denote e)) cm rm); try assumption. useih.
+    + apply (acts_masked (mm false e) (denote e) rm cm); try assumption. useih.
+  - (* TransposePermutation *) simpl. apply acts_sym_mt; [apply dtr_dtransperm|apply acts_transperm].
   - (* Kernel *) cbn [mm denote]. destruct tf; simpl mt; [|apply acts_dmm].
     eapply acts_eq; [apply BTeq_sym; apply dtr_dkernel; assumption|apply acts_dmm].
   - (* UserMinimal *) apply acts_dmm.
